@@ -50,8 +50,11 @@ impl<T: Value> ExpertEdge for Edge<T> {
     fn on_change(&self) {
         let mut handler = self.on_change.borrow_mut();
         if let Some(h) = &mut *handler {
-            let v = self.child.node.value_as_ref();
-            h(v.as_ref().unwrap());
+            /* The child does not necessarily have a value yet (a dependency on a node that has
+            never been computed, or the situation described in propagate_invalidity). */
+            if let Some(v) = self.child.node.value_as_ref() {
+                h(&v);
+            }
         }
     }
     fn packed(&self) -> NodeRef {
